@@ -158,7 +158,8 @@ where
          requires=['old(self).rdy::<Request>()'],
          ensures=[
              Clause('K1_a_parked_error_is_handed_to_exactly_one_call', 'old(self).error matches Some(e) ==> r.inner == Inner::<S::Future>::Error(Some(e)) && final(self).error is None && final(self).state == old(self).state'),
-             Clause('K2_otherwise_the_connected_service_is_called', 'old(self).error is None ==> r.inner is Future && final(self).error is None'),
+             Clause('K2_otherwise_the_connected_service_is_called', 'old(self).error is None ==> r.inner is Future && final(self).error is None && final(self).state is Connected'),
+             Clause('K3_nothing_else_changes', 'final(self).has_been_connected == old(self).has_been_connected && final(self).is_lazy == old(self).is_lazy && final(self).target == old(self).target && final(self).mk_service == old(self).mk_service'),
          ])
     u.close('}')
     u.fn(R, 'poll', within='impl<F, T, E> Future for ResponseFuture<F>', header='impl<F> ResponseFuture<F> {', close=True,
